@@ -173,7 +173,8 @@ Proof.
       assert (Hnv1 : ~ sverified s1 n).
       { intros [j [J1 J2]]. apply Hnv. exists j. rewrite <- K1. split; [exact J1|].
         rewrite <- (mr_ts _ _ _ Ew). exact J2. }
-      apply MonoR_weaken in Ew. destruct d as [|[|] cl].
+      apply MonoR_weaken in Ew.
+      destruct d as [|[|] cl].
       - match type of H with context [execute p None f ?a ?b ?c ?d ?e ?g] =>
           destruct (execute p None f a b c d e g) as [[m2 s2]| | |] eqn:Ex; try discriminate end.
         inversion H. subst. eapply MonoR_trans; [exact Ew|]. eapply IHx; eauto.
